@@ -6,8 +6,7 @@
  "replace": ["http_request_cancel"],
  "annotate": ["http/http.c"],
  "defines": ["VERIF_HALLOC", "HTTP_N=16", "HTTP_BODYMAX=8", "VERIF_STRMAX=8"],
- "models": ["models/http_string.c", "models/http_env.c"],
- "cbmc": ["--memory-leak-check"],
+ "models": ["models/libc_string.c", "models/http_env.c"],
  "loop_contracts": false,
  "timeout": 300,
  "assumptions": ["user callback: counting stub http_cb_stub (models/http_env.c); it takes ownership of the body and the harness releases it"]
